@@ -204,8 +204,8 @@ func (f *File) register(path string) string {
 		alias = true
 	}
 
-	// Only add a prefix if the name is an alias
-	if f.PackagePrefix != "" && alias {
+	// Only add a prefix if the name is an alias (and never to the dot of a dot-import)
+	if f.PackagePrefix != "" && alias && unique != "." {
 		unique = f.PackagePrefix + "_" + unique
 	}
 
